@@ -637,9 +637,11 @@ func (p *Parser) Field(t *token.Token) (ast.TableField, *token.Token) {
 		expectType(p.Scan(), token.SgAssign, "'='")
 		val, t = p.Exp(p.Scan())
 	} else {
+		firstTok := t
 		val, t = p.Exp(t)
 		if t.Type == token.SgAssign {
-			if name, ok := val.(ast.Name); !ok {
+			// Name '=' exp: the key is a name, not an expression denoting one
+			if name, ok := val.(ast.Name); !ok || firstTok.Type != token.IDENT {
 				tokenError(t, "")
 			} else {
 				key = name.AstString()
